@@ -11,7 +11,9 @@ THEOREMS = [(M, "NQ.C06." + n) for n in [
     "builder_positions_accepted", "accepted_positions_exempt", "templatesExempt_mono",
     "subst_assemble", "compile_commit_eq_flush", "compile_commit_eq_flush_init",
     "nothing_left_after", "f7_old_counterexample",
-    "compile_commit_eq_flush_interleaved", "reset_at_commit_counterexample"]]
+    "compile_commit_eq_flush_interleaved", "reset_at_commit_counterexample",
+    "instantiate_pure", "instantiate_failed_unchanged", "instantiate_reuse", "instantiate_reuse_total",
+    "inplace_counterexample"]]
 TRANSLATORS = ["template_table"]
 LEVEL_TEXT = (
     "Lean theorems: (1) instantiate substitutes template operands in place, so the instantiated "
@@ -22,7 +24,10 @@ LEVEL_TEXT = (
     "/repo and the inclusions decided by the kernel; (3) compile_commit_eq_flush: for EVERY history of "
     "segments (any builder activity; flush or compile+instantiate+commit) the subroutines sent and the "
     "final builder bookkeeping of the pre-compiled flow equal those of the program written with the "
-    "values and flushed (induction over the history), also when operations are built between "
+    "values and flushed (induction over the history); instantiate is a pure function of (template, "
+    "values): any sequence of instantiations of one compiled template, complete or failing, yields "
+    "each call's own instance and leaves the template unchanged (instantiate_reuse); "
+    "also when operations are built between "
     "compile and commit and several compiled subroutines are outstanding (committed oldest first; "
     "compile_commit_eq_flush_interleaved), modelling compile() after the fix for F7 "
     "(witness for the old code proved). Tie: differential stream of the compiled bookkeeping model "
@@ -43,6 +48,8 @@ TRUSTED = [
     "proto-subroutines captured by wrapping builder.subrt_compile_subroutine on the instance",
 ]
 ASSUMPTIONS = [
+    "a re-used template block contains only gates/rotations on live qubits (a block that allocates "
+    "qubits or arrays cannot be executed twice) and its instances are committed right after compile",
     "compiled subroutines are committed oldest first and an ordinary flush only happens while no "
     "compiled subroutine is uncommitted (otherwise the controller legitimately sees another order)",
     "templates occur in rotation angle operands (the only SDK entry points that accept them)",
@@ -62,6 +69,18 @@ INTERLEAVED = {"cfg": {"nv": False, "transp": False, "maxq": 5}, "events": [
     {"k": "compile", "vals": {}},
     {"k": "array", "len": 2}, {"k": "meas", "h": 1, "mode": "reg", "inplace": False},
     {"k": "commit"}, {"k": "commit"}, {"k": "flush"}]}
+
+
+# one compiled template committed three times with different values (shallow copies), then a
+# template whose first instantiate lacks an argument and is retried
+REUSE = {"cfg": {"nv": False, "transp": False, "maxq": 5}, "events": [
+    {"k": "new"}, {"k": "gate", "h": 0, "g": 0}, {"k": "flush"},
+    {"k": "rot", "h": 0, "axis": "Z", "n": {"t": "a"}, "d": 4}, {"k": "rot", "h": 0, "axis": "X", "n": {"t": "b"}, "d": 3},
+    {"k": "compile", "vals": {"a": 3, "b": 1}, "more": [{"a": 9, "b": 5}, {"a": 30, "b": 2}], "copy": "copy"},
+    {"k": "commit"}, {"k": "commit"}, {"k": "commit"},
+    {"k": "rot", "h": 0, "axis": "Z", "n": {"t": "a"}, "d": 4}, {"k": "rot", "h": 0, "axis": "X", "n": {"t": "b"}, "d": 3},
+    {"k": "compile", "vals": {"a": 5, "b": 7}, "partial": {"a": 1}, "partial_at": 0, "copy": "self"},
+    {"k": "commit"}]}
 
 
 def run(ctx):
@@ -139,10 +158,36 @@ def run(ctx):
             fail(bad[0], prog, bad[1])
         # ---- correspondence with the bookkeeping model
         rewritten = any(r.get("rewrite") for r in P["events"])
-        model = ctx.driver.call(H.model_request(prog, P))
+        reused = any(st.get("more") for st in prog["events"])
+        if reused:
+            res.count("re-use: one compiled template instantiated several times")
+        if any("partial" in st for st in prog["events"]):
+            res.count("re-use: failed instantiate (missing argument) retried")
+        req, idx = H.model_request(prog, P)
+        model = ctx.driver.call(req)
         msteps = model["steps"]
+        # ---- correspondence: instantiate as a pure function of (template, values)
+        for trec in P["templates"]:
+            if not trec["calls"]:
+                continue
+            mi = ctx.driver.call(H.inst_request(trec))
+            if mi["r"] != trec["results"]:
+                res.disagreements.append({"stream": stream + ".instantiate", "input": {"prog": prog, "t": trec["t"], "calls": trec["calls"]},
+                                          "model": mi["r"], "code": trec["results"]})
+            if trec["after"] is not None and mi["t"] != trec["after"]:
+                res.disagreements.append({"stream": stream + ".template-after-instantiate", "input": {"prog": prog, "t": trec["t"], "calls": trec["calls"]},
+                                          "model": mi["t"], "code": trec["after"]})
+        last = None
         for i, rp in enumerate(P["events"]):
-            ms = msteps[i] if i < len(msteps) else None
+            if idx[i] is None:
+                # a further instance of a re-used template: bookkeeping must not move
+                if last is not None and rp["bk"] != last:
+                    res.disagreements.append({"stream": stream + ".bookkeeping-reuse", "input": {"prog": prog, "event": i},
+                                              "model": last, "code": rp["bk"]})
+                    break
+                continue
+            last = rp["bk"]
+            ms = msteps[idx[i]] if idx[i] < len(msteps) else None
             if ms is None:
                 res.disagreements.append({"stream": stream + ".vocabulary", "input": {"prog": prog, "event": i},
                                           "model": None, "code": rp["bk"]})
@@ -151,12 +196,12 @@ def run(ctx):
             rbk = dict(rp["bk"])
             if rewritten:
                 mbk.pop("pending"), rbk.pop("pending")
-            if mbk != rbk or ms["queue"] != rp["outstanding"]:
+            if mbk != rbk or (not reused and ms["queue"] != rp["outstanding"]):
                 res.disagreements.append({"stream": stream + ".bookkeeping", "input": {"prog": prog, "event": i},
                                           "model": ms, "code": {"bk": rp["bk"], "outstanding": rp["outstanding"]}})
                 break
         else:
-            if len(msteps) == len(P["events"]) + 1 and msteps[-1] is not None:
+            if len(msteps) == len(req["events"]) and msteps[-1] is not None:
                 if msteps[-1]["bk"] != P["close"]["bk"]:
                     res.disagreements.append({"stream": stream + ".bookkeeping-close", "input": {"prog": prog},
                                               "model": msteps[-1]["bk"], "code": P["close"]["bk"]})
@@ -164,6 +209,8 @@ def run(ctx):
                     res.count("model:subroutines-skipped(peephole rewrote pending commands)")
                 else:
                     for name, flow in (("P", P), ("D", D)):
+                        if name == "D" and reused:
+                            continue  # the direct flow builds and flushes the block once per round
                         if model["subs"] != flow["protos"]:
                             res.disagreements.append({"stream": stream + ".subroutines-" + name, "input": {"prog": prog},
                                                       "model": model["subs"], "code": flow["protos"]})
@@ -172,6 +219,8 @@ def run(ctx):
     P, D = one(F7_WITNESS, "tpl.corpus")
     res.samples.append({"prog": F7_WITNESS, "futures": P["futures"], "msgs": len(P["msgs"] or [])})
     P, D = one(INTERLEAVED, "tpl.corpus")
+    P, D = one(REUSE, "tpl.corpus")
+    res.samples.append({"prog": REUSE, "msgs": len(P["msgs"] or [])})
     res.samples.append({"prog": INTERLEAVED, "futures": P["futures"], "msgs": len(P["msgs"] or [])})
     n = 30000 if ctx.thorough else 2500
     for it in range(n):
